@@ -671,6 +671,13 @@ class Intrinsics:
         if isinstance(a, (ClassV,)) and isinstance(b, ClassV):
             return z3.BoolVal(a.ci is b.ci)
         for x, y in ((a, b), (b, a)):
+            # `type(v) is dict` (exact built-in type test)
+            if isinstance(y, BuiltinV) and y.name in ("dict", "list", "str", "int", "float", "bool", "tuple") \
+                    and isinstance(x, Z) and x.meta.get("type_of") is not None:
+                return smt.tyof(to_val(x.meta["type_of"])) == z3.IntVal(smt.tid_of(y.name))
+            if isinstance(y, BuiltinV) and isinstance(x, BuiltinV):
+                return z3.BoolVal(x.name == y.name)
+        for x, y in ((a, b), (b, a)):
             if isinstance(y, Const) and y.v is None:
                 if isinstance(x, (ObjV, TupleV, ClassV, FuncV, BoundV, LockV, Iv, Bv, KwV)):
                     return z3.BoolVal(False)
@@ -918,6 +925,11 @@ class Intrinsics:
             # Inv.node (shape) at the store site: checked wherever callee preconditions are checked
             ok = z3.BoolVal(True) if val.meta.get("fb_src") is not None else node_items_ok(val.term)
             st.event("requires", "node._data", "Inv.node:container-holds-only-scalars-and-nodes", ok)
+            # C16 (provenance) at the store site: the container a node is bound to was CREATED by the library in this
+            # call (display, comprehension, dict() / list(), a lifted _from_base product) - never an object that came in
+            # from the caller, which the caller could go on mutating
+            fresh = bool(val.meta.get("fresh_container")) or val.meta.get("fb_src") is not None
+            st.event("requires", "node._data", "C16:container-is-a-fresh-object", z3.BoolVal(fresh))
         d = smt.fresh("newcell", IntS)
         st.assume(d >= st.g["Alloc"])
         st.g["Alloc"] = d + 1
